@@ -5,7 +5,15 @@
    the real writer thread and the kernel are sampled by kill experiments, not enumerated. *)
 From Coq Require Import List Arith Bool.
 From MdpaxV Require Import Model.Crash Model.Solvers Proofs.C11P Proofs.C09P Proofs.LoopP.
+From MdpaxGen Require Import GenSave.
 Import ListNotations.
+
+(* the tie of the crash model's `todo` list to the code: one call of the public save(step) (GENERATED from
+   CheckpointMixin.save) is exactly one CheckpointManager.save(step, StandardSave(self.solver_state)), guarded by
+   the enabled flag, and touches the directory in no other way (any other statement fails the translation) *)
+Theorem save_is_one_manager_save : save_effects = [EManagerSave] /\ save_guarded_by_enabled = true.
+Proof. split; reflexivity. Qed.
+Print Assumptions save_is_one_manager_save.
 
 (* after ANY finite execution from a directory satisfying the invariant (the empty one does), whatever
    restore() finds is intact and holds exactly the state the solver had at the iteration it is labelled with *)
